@@ -347,6 +347,14 @@ def run(ctx):
         nparts = math.ceil(n / (ps or 100))
         for sch, w, cs in sched_alphabet(nparts, tier):
             jobs.append((n, ps, sch, w, cs, None, 3000))
+    # batches of more than ten partitions (> 1000 events): the synchronous scheduler and ONE threaded worker (a single
+    # completion order each); two workers only in the thorough tier, capped (the completion orders of 12 partitions
+    # cannot be enumerated; the cap is reported)
+    for n in ((1001, 1130) if tier == "quick" else (1001, 1099, 1130, 2101)):
+        jobs.append((n, None, "synchronous", 1, 1, None, 1))
+        jobs.append((n, None, "threads", 1, 1, None, 1))
+        if tier == "thorough":
+            jobs.append((n, None, "threads", 2, 1, None, 40))
     nplumb = len(jobs)
     for n, ps in [(n, ps) for n, ps in sizes_small if n <= (5 if tier == "quick" else 7)] + [(101, None), (201, None)]:
         nparts = math.ceil(n / (ps or 100))
